@@ -37,6 +37,7 @@ func checkC15(w *World, r *Recorder) propInfo {
 		c15Walker(w, r, n)
 	}
 	c15DupKey(w, r, sf)
+	c15Collector(w, r)
 	c15Writers(w, r)
 	c15Order(w, r)
 	r.Floor("C15-H1", 1)
@@ -515,7 +516,7 @@ func c15Walker(w *World, r *Recorder, name string) {
 					continue
 				}
 				switch v.(type) {
-				case *ssa.Extract, *ssa.Field, *ssa.UnOp:
+				case *ssa.Extract, *ssa.Field, *ssa.UnOp, *ssa.Call:
 					if ok, _ := omitDefinition(v); ok {
 						omitPhi = v
 					}
@@ -753,15 +754,47 @@ func isOmitTest(ifi *ssa.If, omitPhi ssa.Value) bool {
 // omitDefinition: every true-valued edge of the φ comes from a block
 // dominated by the true edge of `option == "omitempty"` where option is an
 // element of Split(tag, ",")[1:].
-func omitDefinition(v ssa.Value) (bool, string) { return omitDefinitionDepth(v, 0) }
+func omitDefinition(v ssa.Value) (bool, string) { return omitDefinitionEnv(v, nil, 0) }
 
-// omitDefinitionDepth: v is true exactly when some option after the key of the
+// bindEnv: the arguments of call c bound to the parameters of its static callee.
+func bindEnv(c *ssa.Call, outer map[*ssa.Parameter]ssa.Value) map[*ssa.Parameter]ssa.Value {
+	h := c.Call.StaticCallee()
+	env := map[*ssa.Parameter]ssa.Value{}
+	if h == nil {
+		return env
+	}
+	for i, p := range h.Params {
+		if i < len(c.Call.Args) {
+			env[p] = resolveEnv(c.Call.Args[i], outer)
+		}
+	}
+	return env
+}
+
+func resolveEnv(v ssa.Value, env map[*ssa.Parameter]ssa.Value) ssa.Value {
+	if p, ok := v.(*ssa.Parameter); ok {
+		if b, has := env[p]; has {
+			return b
+		}
+	}
+	return v
+}
+
+func isOmitemptyConst(v ssa.Value, env map[*ssa.Parameter]ssa.Value) bool {
+	k, ok := resolveEnv(v, env).(*ssa.Const)
+	return ok && k.Value != nil && k.Value.Kind() == constant.String && constStringVal(k) == "omitempty"
+}
+
+// omitDefinitionEnv: v is true exactly when some option after the key of the
 // tag equals "omitempty". Accepted definitions: a φ over constants whose true
-// edges are guarded by option == "omitempty" for option ranging over
-// Split(tag, ",")[1:]; slices.Contains(Split(tag, ",")[1:], "omitempty"); the
-// same computed by an in-repo tag-parsing helper and handed back as one of its
-// results or as a field of the struct it returns.
-func omitDefinitionDepth(v ssa.Value, depth int) (bool, string) {
+// edges are guarded by option == "omitempty" for option ranging over the
+// options after the key; slices.Contains(options, "omitempty"); the same
+// computed by an in-repo helper and handed back as its result, one of its
+// results or a field of the struct it returns (parameters of the helper are
+// read through the arguments of the call). "Options after the key" are
+// Split(tag, ",")[1:] or the pieces strings.Cut takes off the remainder after
+// the first comma.
+func omitDefinitionEnv(v ssa.Value, env map[*ssa.Parameter]ssa.Value, depth int) (bool, string) {
 	if v == nil {
 		return false, "no isOmitEmpty variable found"
 	}
@@ -770,10 +803,16 @@ func omitDefinitionDepth(v ssa.Value, depth int) (bool, string) {
 	}
 	switch x := v.(type) {
 	case *ssa.Call:
-		if strings.HasPrefix(calleeName(&x.Call), "slices.Contains[") && len(x.Call.Args) == 2 && optionsAfterKey(x.Call.Args[0]) {
-			return true, ""
+		if strings.HasPrefix(calleeName(&x.Call), "slices.Contains[") && len(x.Call.Args) == 2 {
+			if optionsAfterKey(resolveEnv(x.Call.Args[0], env)) && isOmitemptyConst(x.Call.Args[1], env) {
+				return true, ""
+			}
+			return false, "the flag is not slices.Contains(options-after-the-key, \"omitempty\")"
 		}
-		return false, "the flag is not slices.Contains(Split(tag, \",\")[1:], \"omitempty\")"
+		if h := x.Call.StaticCallee(); h != nil && h.Blocks != nil && h.Signature.Results().Len() == 1 {
+			return omitReturnsOf(h, 0, bindEnv(x, env), depth)
+		}
+		return false, "the flag comes from a call that is not understood"
 	case *ssa.Extract:
 		c, ok := x.Tuple.(*ssa.Call)
 		if !ok {
@@ -783,16 +822,7 @@ func omitDefinitionDepth(v ssa.Value, depth int) (bool, string) {
 		if h == nil || h.Blocks == nil {
 			break
 		}
-		n := 0
-		for _, b := range h.Blocks {
-			if ret, ok := b.Instrs[len(b.Instrs)-1].(*ssa.Return); ok && x.Index < len(ret.Results) {
-				n++
-				if ok, why := omitDefinitionDepth(ret.Results[x.Index], depth+1); !ok {
-					return false, "in " + h.Name() + ": " + why
-				}
-			}
-		}
-		return n > 0, "helper without return"
+		return omitReturnsOf(h, x.Index, bindEnv(c, env), depth)
 	case *ssa.Field:
 		if c, ok := x.X.(*ssa.Call); ok {
 			return omitFieldOfHelper(c, x.Field, depth)
@@ -815,9 +845,42 @@ func omitDefinitionDepth(v ssa.Value, depth int) (bool, string) {
 			}
 		}
 	case *ssa.Phi:
-		return omitPhiDefinition(x)
+		return omitPhiDefinition(x, env)
 	}
 	return false, "unrecognised definition of the omitempty flag"
+}
+
+// omitReturnsOf: result idx of helper h is the omitempty flag: every return
+// gives a value that is itself an accepted definition, the constant false, or
+// the constant true from a block guarded by option == "omitempty".
+func omitReturnsOf(h *ssa.Function, idx int, env map[*ssa.Parameter]ssa.Value, depth int) (bool, string) {
+	n, nTrue := 0, 0
+	for _, b := range h.Blocks {
+		ret, ok := b.Instrs[len(b.Instrs)-1].(*ssa.Return)
+		if !ok || idx >= len(ret.Results) {
+			continue
+		}
+		n++
+		rv := ret.Results[idx]
+		if k, isK := rv.(*ssa.Const); isK && k.Value != nil && k.Value.Kind() == constant.Bool {
+			if constant.BoolVal(k.Value) {
+				nTrue++
+				if !guardedByOmitemptyOption(h, b, env) {
+					return false, "in " + h.Name() + ": returns true without the option == \"omitempty\" guard over the options after the key"
+				}
+			}
+			continue
+		}
+		ok2, why := omitDefinitionEnv(rv, env, depth+1)
+		if !ok2 {
+			return false, "in " + h.Name() + ": " + why
+		}
+		nTrue++
+	}
+	if n == 0 || nTrue == 0 {
+		return false, "in " + h.Name() + ": the flag is never true"
+	}
+	return true, ""
 }
 
 // omitFieldOfHelper: field f of the struct returned by the in-repo call c is
@@ -866,7 +929,7 @@ func omitFieldOfHelper(c *ssa.Call, f int, depth int) (bool, string) {
 						continue
 					}
 					nTrue++
-					if !guardedByOmitemptyOption(h, st.Block()) {
+					if !guardedByOmitemptyOption(h, st.Block(), nil) {
 						return false, "in " + h.Name() + ": the flag is set without the option == \"omitempty\" guard over Split(tag, \",\")[1:]"
 					}
 				}
@@ -880,8 +943,8 @@ func omitFieldOfHelper(c *ssa.Call, f int, depth int) (bool, string) {
 }
 
 // guardedByOmitemptyOption: blk is entered only through the equal edge of
-// option == "omitempty", option being an element of Split(…, ",")[1:].
-func guardedByOmitemptyOption(fn *ssa.Function, blk *ssa.BasicBlock) bool {
+// option == "omitempty", option being one of the options after the key.
+func guardedByOmitemptyOption(fn *ssa.Function, blk *ssa.BasicBlock, env map[*ssa.Parameter]ssa.Value) bool {
 	for _, b := range fn.Blocks {
 		ifi, isIf := b.Instrs[len(b.Instrs)-1].(*ssa.If)
 		if !isIf {
@@ -891,28 +954,68 @@ func guardedByOmitemptyOption(fn *ssa.Function, blk *ssa.BasicBlock) bool {
 		if !isBin || bo.Op != token.EQL {
 			continue
 		}
-		k, isK := bo.Y.(*ssa.Const)
 		opt := bo.X
-		if !isK {
-			k, isK = bo.X.(*ssa.Const)
+		if !isOmitemptyConst(bo.Y, env) {
+			if !isOmitemptyConst(bo.X, env) {
+				continue
+			}
 			opt = bo.Y
 		}
-		if !isK || k.Value == nil || k.Value.Kind() != constant.String || constStringVal(k) != "omitempty" {
+		if !isOptionAfterKey(opt, env) {
 			continue
 		}
-		// opt = element of a slice x[1:] of a strings.Split result
-		if ld, isLd := opt.(*ssa.UnOp); isLd {
-			if ia, isIA := ld.X.(*ssa.IndexAddr); isIA && optionsAfterKey(ia.X) {
-				if edgeDominates(b, 0, blk) || b.Succs[0] == blk {
-					return true
-				}
-			}
+		if edgeDominates(b, 0, blk) || b.Succs[0] == blk {
+			return true
 		}
 	}
 	return false
 }
 
-func omitPhiDefinition(phi *ssa.Phi) (bool, string) {
+// isOptionAfterKey: v is an element of the options after the key — an element
+// of Split(tag, ",")[1:] (possibly a parameter bound to it), or the piece that
+// strings.Cut(rest, ",") takes off a remainder that itself comes after the
+// first comma.
+func isOptionAfterKey(v ssa.Value, env map[*ssa.Parameter]ssa.Value) bool {
+	if ld, isLd := v.(*ssa.UnOp); isLd {
+		if ia, isIA := ld.X.(*ssa.IndexAddr); isIA && optionsAfterKey(resolveEnv(ia.X, env)) {
+			return true
+		}
+	}
+	if ex, ok := v.(*ssa.Extract); ok && ex.Index == 0 {
+		if c, ok := ex.Tuple.(*ssa.Call); ok && calleeName(&c.Call) == "strings.Cut" && len(c.Call.Args) == 2 && isCommaConst(c.Call.Args[1]) {
+			return isRemainderAfterComma(c.Call.Args[0], map[ssa.Value]bool{})
+		}
+	}
+	return false
+}
+
+func isCommaConst(v ssa.Value) bool {
+	k, ok := v.(*ssa.Const)
+	return ok && k.Value != nil && k.Value.Kind() == constant.String && constStringVal(k) == ","
+}
+
+// isRemainderAfterComma: v is result #1 of strings.Cut(_, ","), or a φ of such.
+func isRemainderAfterComma(v ssa.Value, seen map[ssa.Value]bool) bool {
+	if seen[v] {
+		return true
+	}
+	seen[v] = true
+	switch x := v.(type) {
+	case *ssa.Extract:
+		c, ok := x.Tuple.(*ssa.Call)
+		return ok && x.Index == 1 && calleeName(&c.Call) == "strings.Cut" && len(c.Call.Args) == 2 && isCommaConst(c.Call.Args[1])
+	case *ssa.Phi:
+		for _, e := range x.Edges {
+			if !isRemainderAfterComma(e, seen) {
+				return false
+			}
+		}
+		return len(x.Edges) > 0
+	}
+	return false
+}
+
+func omitPhiDefinition(phi *ssa.Phi, env map[*ssa.Parameter]ssa.Value) (bool, string) {
 	nTrue := 0
 	for i, e := range phi.Edges {
 		c, ok := e.(*ssa.Const)
@@ -923,7 +1026,7 @@ func omitPhiDefinition(phi *ssa.Phi) (bool, string) {
 			continue
 		}
 		nTrue++
-		if !guardedByOmitemptyOption(phi.Parent(), phi.Block().Preds[i]) {
+		if !guardedByOmitemptyOption(phi.Parent(), phi.Block().Preds[i], env) {
 			return false, "a true definition is not guarded by option == \"omitempty\" over Split(tag, \",\")[1:]"
 		}
 	}
@@ -953,8 +1056,29 @@ func isGetAbsent(st walkStep) bool {
 	if !ok || ex.Index != 1 || st.succ != 1 {
 		return false
 	}
-	c, ok := ex.Tuple.(*ssa.Call)
-	return ok && strings.HasSuffix(calleeName(&c.Call), ").Get")
+	return isRawMapPresence(ex)
+}
+
+// isRawMapPresence: ex is the ok flag of the raw map's Get, or of a comma-ok
+// lookup in the raw map's own field map (Get written out).
+func isRawMapPresence(ex *ssa.Extract) bool {
+	if ex.Index != 1 {
+		return false
+	}
+	switch t := ex.Tuple.(type) {
+	case *ssa.Call:
+		return strings.HasSuffix(calleeName(&t.Call), ").Get")
+	case *ssa.Lookup:
+		if !t.CommaOk {
+			return false
+		}
+		if ld, ok := t.X.(*ssa.UnOp); ok {
+			if fa, ok := ld.X.(*ssa.FieldAddr); ok {
+				return fieldName(fa.X.Type(), fa.Field) == "Fields"
+			}
+		}
+	}
+	return false
 }
 
 // classifySkipPath classifies the conditions under which a field is skipped.
@@ -1205,10 +1329,8 @@ func omitUnderAbsence(b *ssa.BasicBlock) string {
 		if !ok {
 			continue
 		}
-		if ex, ok := i2.Cond.(*ssa.Extract); ok && ex.Index == 1 {
-			if c, ok := ex.Tuple.(*ssa.Call); ok && strings.HasSuffix(calleeName(&c.Call), ").Get") && (edgeDominates(blk, 1, b) || blk.Succs[1] == b) {
-				return "absent∧omitempty"
-			}
+		if ex, ok := i2.Cond.(*ssa.Extract); ok && isRawMapPresence(ex) && (edgeDominates(blk, 1, b) || blk.Succs[1] == b) {
+			return "absent∧omitempty"
 		}
 	}
 	return "?omitempty-without-absence"
@@ -1352,4 +1474,51 @@ func isEmbedCollector(f *ssa.Function) bool {
 		}
 	}
 	return false
+}
+
+// ---- H8 ----
+
+// c15Collector: whether an embedded struct is collected for the recursion may
+// depend on the static type of the field and on whether a value is present
+// (nil interface / nil pointer), never on the value's contents: an all-zero
+// struct behind an embedded interface still has its fields in the union. The
+// collector may therefore ask a reflect.Value only structural questions.
+func c15Collector(w *World, r *Recorder) {
+	structural := map[string]bool{
+		"Elem": true, "Kind": true, "IsValid": true, "IsNil": true, "Type": true, "Interface": true,
+		"Field": true, "NumField": true, "CanInterface": true, "CanAddr": true, "Addr": true, "CanSet": true,
+	}
+	n := 0
+	for _, fn := range w.Funcs {
+		if fn.Pkg != w.Enc || !isEmbedCollector(fn) {
+			continue
+		}
+		n++
+		bad := ""
+		var at ssa.Instruction
+		for _, b := range fn.Blocks {
+			for _, in := range b.Instrs {
+				c, ok := in.(*ssa.Call)
+				if !ok {
+					continue
+				}
+				cn := calleeName(&c.Call)
+				if strings.HasPrefix(cn, "(reflect.Value).") {
+					m := strings.TrimPrefix(cn, "(reflect.Value).")
+					if !structural[m] {
+						bad, at = m, c
+					}
+				}
+			}
+		}
+		pos := w.FnPos(fn)
+		if at != nil {
+			pos = w.InstrPos(at)
+		}
+		r.Check(bad == "", "C15-H8", "embed-collector", pos, "the embed collector asks a field's value only structural questions (kind, validity, nil-ness): whether an embedded struct is merged does not depend on its contents",
+			"the embed collector consults reflect.Value."+bad+"(): whether an embedded struct is merged into the map depends on its contents (an all-zero struct behind an embedded interface would be dropped from the union)")
+	}
+	if n == 0 {
+		r.Undecide("C15-H8", "embed-collector", "-", "no embed collector found")
+	}
 }
